@@ -30,6 +30,15 @@ def gen_case(rng, tier, i):
         if groups:
             spec['approx_groups'] = {rng.choice(groups): rng.choice(['fd', 'cs'])}
             approx = True
+    if spec['dvs'] and rng.random() < 0.45:
+        spec['driver_coloring'] = True
+    if spec.get('approx_groups') and rng.random() < 0.7:
+        spec['group_coloring'] = sorted(spec['approx_groups'])
+    elif not coupled and not spec.get('approx_groups') and rng.random() < 0.15:
+        # the whole model approximated and coloured
+        spec['approx_groups'] = {'': rng.choice(['fd', 'cs'])}
+        spec['group_coloring'] = ['']
+        approx = True
     n = spec['comps'][0]['n']
     free = sorted(spec['init'])
     dv = [d['name'] for d in spec['dvs']]
@@ -42,6 +51,14 @@ def gen_case(rng, tier, i):
         return rng.sample(outs, rng.randint(1, min(2, len(outs)))), rng.sample(free, rng.randint(1, min(2, len(free))))
 
     seq = [{'op': 'run'}]
+    if free and rng.random() < 0.6:
+        # the first derivative query (the one that computes dynamic colorings / sparsities) comes after exactly
+        # one run_model and a set_val: the model state is deliberately dirty (inputs changed since the last run)
+        seq.append({'op': 'set', 'vals': [[nm, [rng.choice([-2, -0.75, 0.25, 1.5, 4, 7.125]) for _ in range(n)]]
+                                          for nm in free]})
+        seq.append(rng.choice([{'op': 'totals', 'of': None, 'wrt': None, 'fmt': 'flat_dict'},
+                               {'op': 'totals', 'of': None, 'wrt': None, 'fmt': 'array'},
+                               {'op': 'check_totals', 'of': None, 'wrt': None, 'method': 'fd'}]))
     L = rng.randint(10, 16) if tier == 'quick' else rng.randint(20, 40)
     for _ in range(L):
         r = rng.random()
@@ -56,6 +73,8 @@ def gen_case(rng, tier, i):
             op = {'op': k}
             if k in ('totals', 'jacvec', 'check_totals', 'coloring'):
                 of, wrt = of_wrt()
+                if k in ('totals', 'check_totals') and rng.random() < 0.35:
+                    of = wrt = None         # the driver's design variables and responses (driver coloring applies)
                 op['of'], op['wrt'] = of, wrt
                 if not free:
                     continue
